@@ -184,6 +184,37 @@ static int execute(uint64_t seed, int scn, const Fault& f, std::vector<std::stri
     oomd.engine_->runOnce(oomd.ctx_);
     evEmit(J().str("e", "TickEnd").num("tick", tick));
   }
+  // "the affected statistic is reported as unavailable": with the file-level fault still in force, ask the REAL
+  // accessors that are fed by the faulted file, on a fresh tick (nothing cached), and log what they answer
+  if (f.kind == "absent" || f.kind == "empty" || f.kind == "unreadable" || f.kind == "readfail") {
+    oomd.ctx_.refresh();
+    for (const char* cg : {"w1", "w2/c1"}) {
+      auto oc = oomd.ctx_.addToCacheAndGet(Oomd::CgroupPath(S.fs.root(), cg));
+      if (!oc) continue;
+      const Oomd::CgroupContext& c = oc->get();
+      auto q = [&](const char* field, bool avail) { evEmit(J().str("e", "StatQuery").str("file", f.file).str("kind", f.kind).str("field", field).str("cg", cg).boolean("avail", avail)); };
+      const std::string& F = f.file;
+      if (F == "memory.current") q("current_usage", c.current_usage().has_value());
+      else if (F == "memory.swap.current") q("swap_usage", c.swap_usage().has_value());
+      else if (F == "memory.swap.max") q("swap_max", c.swap_max().has_value());
+      else if (F == "memory.low") q("memory_low", c.memory_low().has_value());
+      else if (F == "memory.min") q("memory_min", c.memory_min().has_value());
+      else if (F == "memory.high") q("memory_high", c.memory_high().has_value());
+      else if (F == "memory.max") q("memory_max", c.memory_max().has_value());
+      else if (F == "memory.high.tmp") q("memory_high_tmp", c.memory_high_tmp().has_value());
+      else if (F == "memory.stat") {
+        if (f.kind != "empty") q("memory_stat", c.memory_stat().has_value());
+        q("anon_usage", c.anon_usage().has_value()); q("file_usage", c.file_usage().has_value());
+        q("shmem_usage", c.shmem_usage().has_value()); q("pg_scan_cumulative", c.pg_scan_cumulative().has_value());
+      }
+      else if (F == "memory.pressure") { q("mem_pressure", c.mem_pressure().has_value()); q("mem_pressure_some", c.mem_pressure_some().has_value()); }
+      else if (F == "io.pressure") { q("io_pressure", c.io_pressure().has_value()); q("io_pressure_some", c.io_pressure_some().has_value()); }
+      else if (F == "io.stat") { if (f.kind != "empty") q("io_stat", c.io_stat().has_value()); }
+      else if (F == "cgroup.stat") q("nr_dying_descendants", c.nr_dying_descendants().has_value());
+      else if (F == "cgroup.events") q("is_populated", c.is_populated().has_value());
+      else if (F == "memory.oom.group") q("oom_group", c.oom_group().has_value());
+    }
+  }
   inFault = false;
   alarm(0);
   I.onOpen = nullptr; I.onOpened = nullptr; I.onKill = nullptr;
